@@ -258,6 +258,8 @@ func makeField(v reflect.Value, params fieldParameters) (encoder, error) {
 						return makeField(val.Field(present), tempParams)
 					}
 					tag.constructed = true
+					// the context tag of a CHOICE is always explicit: do not wrap twice
+					params.explicitTag = false
 					var err error
 					berType.value, err = makeField(val.Field(present), tempParams)
 					if err != nil {
